@@ -1,6 +1,7 @@
 //! Property workloads that need the format crates (IPC, Flight, Parquet, CSV, JSON, Avro).
 use vcore::mon::Ctx;
 
+pub mod c01f;
 pub mod c04;
 pub mod c04gen;
 pub mod c04probe;
@@ -27,6 +28,7 @@ pub mod pq_common;
 
 pub fn run(id: &str, ctx: &mut Ctx) -> bool {
     match id {
+        "C01" => c01f::run(ctx),
         "C04" => c04::run(ctx),
         "C05" => c05::run(ctx),
         "C06" => c06::run(ctx),
